@@ -522,6 +522,8 @@ class Exec:
             if isinstance(item, STy):
                 return self.disj([item.z == W.tt(o) for o in W.subtypes(container)])
             raise OutsideSubset('in tokentype: %r' % (item,))
+        if isinstance(container, Rec) and container.kind == 'sdict':
+            return self._sdict_has(container, st, item)
         if isinstance(container, (set, frozenset)):
             # membership in a set hashes the item: an unhashable object (list, dict, set, ...) raises TypeError.  The
             # Dyn kind `Other` stands for arbitrary objects, some of which are unhashable.
@@ -623,6 +625,24 @@ class Exec:
                     nxt.append((s2, acc + [v]))
             res = nxt
         return [(s, tuple(a)) for s, a in res]
+
+    def e_Dict(self, node, st):
+        # an (initially empty) local dictionary with string keys: a record with its known entries; after a loop havoc
+        # its contents are unknown (any keys, values of the shape last stored)
+        if node.keys:
+            raise OutsideSubset('non-empty dict display')
+        return [(st, self.new_obj(st, 'sdict', {'ENT': (), 'UNK': False, 'SHAPE': None, 'VER': 0}))]
+
+    def _sdict_has(self, o, st, key):
+        f = st.objs[o.oid]
+        if not self.is_strlike(key):
+            raise OutsideSubset('dict key that is not a string')
+        zk = self.z_str(key)
+        parts = [self.z_str(k) == zk for k, _v in f['ENT']]
+        if f['UNK']:
+            has = z3.Function('sdict_has_%d_%d' % (o.oid, f['VER']), z3.StringSort(), z3.BoolSort())
+            parts.append(has(zk))
+        return z3.Or(*parts) if parts else z3.BoolVal(False)
 
     def e_Set(self, node, st):
         # a set display of constants: {None, 'upper', ...}.  Kept as a frozenset; `x in <set>` hashes x first.
@@ -962,6 +982,34 @@ class Exec:
                 return [(st, o[i])]
             except IndexError:
                 raise PyExc('IndexError', 'tuple index')
+        if isinstance(o, Rec) and o.kind == 'sdict':
+            f = st.objs[o.oid]
+            if not self.is_strlike(i):
+                raise OutsideSubset('dict key that is not a string')
+            zk = self.z_str(i)
+            res, cur = [], st
+            for k, v in reversed(f['ENT']):          # the latest store of a key wins
+                hit = cur.fork()
+                hit.assume(self.z_str(k) == zk)
+                if smt.feasible(hit.pc):
+                    res.append((hit, v))
+                cur.assume(self.z_str(k) != zk)
+            if smt.feasible(cur.pc):
+                if f['UNK']:
+                    has = z3.Function('sdict_has_%d_%d' % (o.oid, f['VER']), z3.StringSort(), z3.BoolSort())
+                    miss = cur.fork()
+                    miss.assume(z3.Not(has(zk)))
+                    if smt.feasible(miss.pc):
+                        self.raise_on(miss, 'KeyError', 'dict key')
+                    cur.assume(has(zk))
+                    if smt.feasible(cur.pc):
+                        from .loops import fresh_like
+                        shape = f['SHAPE'] if f['SHAPE'] is not None else self.__dict__.get('_sdict_shapes', {}).get(o.oid)
+                        v = fresh_like(self, shape, 'dictval') if shape is not None else None
+                        res.append((cur, v if v is not None else Opaque('dict-value')))
+                else:
+                    self.raise_on(cur, 'KeyError', 'dict key')
+            return res
         if isinstance(o, dict):
             if isinstance(i, Sym):
                 h = getattr(self, 'dict_index_ext', None)
@@ -1261,6 +1309,15 @@ class Exec:
         raise OutsideSubset('assignment target')
 
     def store_index(self, o, i, v, st):
+        if isinstance(o, Rec) and o.kind == 'sdict':
+            if not self.is_strlike(i):
+                raise OutsideSubset('dict key that is not a string')
+            f = st.objs[o.oid]
+            f['ENT'] = f['ENT'] + ((i, v),)
+            f['SHAPE'] = v
+            # (remembered per executor: a later havoc round of an enclosing loop needs the shape of the stored values)
+            self.__dict__.setdefault('_sdict_shapes', {})[o.oid] = v
+            return [st]
         if isinstance(o, dict) and not isinstance(i, Sym):
             # dicts are executor-side mutable values: copy-on-write is handled by keeping them in objs
             o[i] = v
